@@ -3,6 +3,7 @@ package checks
 import (
 	"fmt"
 	"math"
+	"sort"
 	"strconv"
 	"strings"
 	"sync"
@@ -11,6 +12,7 @@ import (
 	"github.com/tormoder/fit"
 
 	"verifharness/lib"
+	"verifharness/ref"
 )
 
 func init() { registrars = append(registrars, registerC17) }
@@ -29,7 +31,7 @@ func registerC17() {
 		Level: "exploration",
 		Rule: "all 2^32 semicircle values for Latitude and Longitude (constructors, Invalid, Semicircles, Degrees, NewXDegrees round trip) and all 2^32 second counts " +
 			"(decode/encode bijection, UTC, whole seconds, monotone, IsBaseTime), in 4096 chunks of 2^20 values; the printed form is checked on a stride of 4099 plus all " +
-			"boundary values in the quick tier and on every value in the thorough tier; family spread: 128 of the chunks once more, also in a binary built with GOARCH=386 (32-bit int); family concurrent-print: 8 goroutines print and parse 40000 coordinates each at the same time; plus the same rules (coordinates on a stride of 4099 and the boundary values, times on a stride of 8209) in a program built for GOOS=js GOARCH=wasm and run by node when the host has one - a platform that converts out-of-range floats and shifts differently from amd64 and 386; every value is a distinct case, non-trivial because each exercises the oracle",
+			"boundary values in the quick tier and on every value in the thorough tier; family spread: 128 of the chunks once more, also in a binary built with GOARCH=386 (32-bit int); family decoded: coordinates that come out of Decode (record.position_lat / position_long written as sint32 in both byte orders: all boundary values and a stride over the range, 4000 per case) obey the same rules and equal what the constructor gives for the same semicircles; family concurrent-print: 8 goroutines print and parse 40000 coordinates each at the same time; plus the same rules (coordinates on a stride of 4099 and the boundary values, times on a stride of 8209) in a program built for GOOS=js GOARCH=wasm and run by node when the host has one - a platform that converts out-of-range floats and shifts differently from amd64 and 386; every value is a distinct case, non-trivial because each exercises the oracle",
 		Assume: []string{
 			"'outside +-90 degrees' is read as the library's documented semicircle range [-2^30, 2^30-1]; +2^30 (exactly +90) is invalid in the code and in its own test table",
 			"the time conversion pair is reached through the verif hook (VerifDecodeDateTime / VerifEncodeTime)",
@@ -40,6 +42,7 @@ func registerC17() {
 			{Name: "time", N: func(string) uint64 { return 4096 }, Run: c17Time},
 			{Name: "spread", N: func(string) uint64 { return 128 }, Run: func(c *lib.Ctx, idx uint64) { c17Coords(c, idx*32+7); c17Time(c, idx*32+19) }},
 			{Name: "concurrent-print", N: func(t string) uint64 { return tierN(t, 32, 512) }, Run: c17ConcurrentPrint},
+			{Name: "decoded", N: func(t string) uint64 { return tierN(t, 64, 2048) }, Run: c17Decoded},
 		},
 		Families386: []string{"spread", "concurrent-print"}, // 128 chunks of 2^20 values spread over the range, again in a GOARCH=386 binary
 		Exhaustive:  func(string) bool { return true },
@@ -51,6 +54,72 @@ func registerC17() {
 }
 
 const semiToDeg = 180.0 / 2147483648.0
+
+// c17Decoded: the coordinate rules hold for values however they were made - here by the decoder.
+func c17Decoded(c *lib.Ctx, idx uint64) {
+	rng := lib.NewRand("C17.decoded", idx)
+	arch := byte(idx % 2)
+	var vals []int32
+	for b := range coordBoundaries {
+		vals = append(vals, b)
+	}
+	sort.Slice(vals, func(i, j int) bool { return vals[i] < vals[j] })
+	for len(vals) < 4000 {
+		vals = append(vals, int32(rng.U64()))
+	}
+	plan := &ref.Plan{HeaderSize: 14, Proto: 0x20, ProfVer: 2115}
+	plan.Records = append(plan.Records,
+		ref.Record{IsDef: true, Local: 0, Arch: arch, Global: 0, Fields: []ref.FieldDef{{Num: 0, Size: 1, Base: 0}}},
+		ref.Record{Local: 0, Data: [][]byte{{4}}},
+		ref.Record{IsDef: true, Local: 1, Arch: arch, Global: 20, Fields: []ref.FieldDef{{Num: 0, Size: 4, Base: 0x85}, {Num: 1, Size: 4, Base: 0x85}}})
+	for i, v := range vals {
+		la, lo := make([]byte, 4), make([]byte, 4)
+		ref.Put(la, uint64(uint32(v)), 4, arch)
+		ref.Put(lo, uint64(uint32(vals[len(vals)-1-i])), 4, arch)
+		plan.Records = append(plan.Records, ref.Record{Local: 1, Data: [][]byte{la, lo}})
+	}
+	b := plan.Bytes()
+	c.SetInflight(b[:256])
+	f, derr, out := lib.GuardedDecode(b)
+	c.EvalN(int64(2 * len(vals)))
+	if out.Panicked || derr != nil {
+		c.Violation(b[:256], "Decode of %d records with coordinates failed: %v %s", len(vals), derr, out.Panic)
+		return
+	}
+	act, err := f.Activity()
+	if err != nil || len(act.Records) != len(vals) {
+		c.Violation(b[:256], "decoded %d records, want %d (%v)", len(act.Records), len(vals), err)
+		return
+	}
+	nv := 0
+	for i, r := range act.Records {
+		sla, slo := vals[i], vals[len(vals)-1-i]
+		if want := fit.NewLatitude(sla); r.PositionLat != want || r.PositionLat.Invalid() != (sla == math.MaxInt32 || sla < -(1<<30) || sla > (1<<30)-1) {
+			nv++
+			if nv <= 3 {
+				c.Violation(b[:256], "position_lat written as %d semicircles decodes to %d (invalid=%v, %q); NewLatitude gives %d (invalid=%v)", sla, r.PositionLat.Semicircles(), r.PositionLat.Invalid(), r.PositionLat.String(), want.Semicircles(), want.Invalid())
+			}
+		}
+		if want := fit.NewLongitude(slo); r.PositionLong != want || r.PositionLong.Semicircles() != slo || r.PositionLong.Invalid() != (slo == math.MaxInt32) {
+			nv++
+			if nv <= 3 {
+				c.Violation(b[:256], "position_long written as %d semicircles decodes to %d (invalid=%v, %q)", slo, r.PositionLong.Semicircles(), r.PositionLong.Invalid(), r.PositionLong.String())
+			}
+		}
+		if !r.PositionLat.Invalid() {
+			if d := r.PositionLat.Degrees(); d != float64(sla)*semiToDeg {
+				nv++
+				if nv <= 3 {
+					c.Violation(b[:256], "decoded position_lat %d: Degrees() = %v", sla, d)
+				}
+			}
+		}
+	}
+	if nv == 0 {
+		c.Count("coordinates_checked_after_decoding", int64(2*len(vals)))
+		c.NontrivialN(int64(2 * len(vals)))
+	}
+}
 
 // c17Formats: verbs under which fmt prints a Stringer as text, with field widths below, at and
 // above the length of a printed coordinate.
